@@ -973,6 +973,9 @@ func checkTokenIndex(w *World, r *Report) {
 			return true
 		})
 	}
+	for _, h := range w.tagHandlers() {
+		an.handlers[h] = true
+	}
 	r.floor("functions operating on the parser", len(an.funcs), 15)
 	r.floor("block handlers stored in the handler map", len(an.handlers), 10)
 
